@@ -436,5 +436,101 @@ fn main() {
     for s in &bad {
         few_cuts(&run, s, 1);
     }
+    // scale: streams larger than any plausible internal buffer.  The complete graph is out of
+    // reach here; explored instead: every chunk size from a ladder around powers of two, and every
+    // pair of cuts taken from the neighbourhoods of 4 KiB multiples and of entry boundaries.
+    let many: Vec<Entry> = (0..run.pick(120, 400)).map(|i| entry(&format!("s{}", i), if i % 17 == 3 { 1 } else if i % 29 == 5 { 2 } else { 0 }, i % 40 == 7)).collect();
+    let big = good_spec("S4 many small entries", many);
+    let mut huge_entry = entry("h", 1, false);
+    huge_entry.insert(2, Val::S("\u{e9}x".repeat(24_000)));
+    let huge = good_spec("S5 an entry with a 72 KB value between two small ones", vec![entry("g", 0, false), huge_entry, entry("i", 2, false)]);
+    {
+        let many: Vec<Entry> = (0..run.pick(9000, 20000)).map(|i| entry(&format!("m{}", i), if i % 97 == 3 { 1 } else { 0 }, false)).collect();
+        let mega = good_spec("S6 a stream larger than 1 MiB", many);
+        let n = mega.bytes.len();
+        run.bound(format!("{}: {} bytes; written in one call, in two halves, and in 1 MiB-1 / 1 MiB / 1 MiB+1 / 64 KiB chunks", mega.name, n));
+        let sizes: Vec<usize> = vec![n, n / 2 + 1, (1 << 20) - 1, 1 << 20, (1 << 20) + 1, 65536, 65537];
+        par_items(&run, "C09 mega stream", &sizes, |_, sz, t| {
+            let cuts: Vec<usize> = (1..n).filter(|q| q % sz == 0).collect();
+            t.evals += 1;
+            t.validated += 1;
+            t.states += 1;
+            t.transitions += cuts.len() as u64 + 1;
+            t.nontrivial += 1;
+            match run_partition(&mega, &cuts) {
+                Some(mut v) => {
+                    // keep the replay file small: the stream is regenerated from its description
+                    v.case = json!({"stream": bytes_json(&mega.bytes[..2000.min(n)]), "note": "first 2000 bytes of S6 only; rerun the check to reproduce", "cuts": cuts});
+                    t.violation(v)
+                }
+                None => t.outcome("scale/mega-ok"),
+            }
+        });
+    }
+    for spec in [&big, &huge] {
+        let n = spec.bytes.len();
+        let mut sizes: Vec<usize> = vec![1, 2, 3, 7, 64, 100, 1000, n - 1, n];
+        for k in 9..=17 {
+            for d in [-1i64, 0, 1] {
+                let v = ((1i64 << k) + d) as usize;
+                if v < n {
+                    sizes.push(v);
+                }
+            }
+        }
+        sizes.sort();
+        sizes.dedup();
+        run.bound(format!("{}: {} bytes; {} fixed chunk sizes; cut pairs around 4 KiB multiples and record ends", spec.name, n, sizes.len()));
+        par_items(&run, "C09 scale chunk sizes", &sizes, |_, sz, t| {
+            if *sz == 1 && n > 40_000 {
+                return; // byte-at-a-time over a 70 KB record is quadratic by construction of the buffer
+            }
+            let cuts: Vec<usize> = (1..n).filter(|q| q % sz == 0).collect();
+            t.evals += 1;
+            t.validated += 1;
+            t.states += 1;
+            t.transitions += cuts.len() as u64 + 1;
+            t.nontrivial += 1;
+            match run_partition(spec, &cuts) {
+                Some(v) => t.violation(v),
+                None => t.outcome("scale/fixed-size-ok"),
+            }
+        });
+        // interesting cut positions
+        let mut pts: Vec<usize> = vec![];
+        for m in (4096..n).step_by(4096) {
+            for d in [-1i64, 0, 1] {
+                pts.push((m as i64 + d) as usize);
+            }
+        }
+        for (i, w) in spec.bytes.windows(2).enumerate() {
+            if w == b"\n\n" && i % 5 == 0 {
+                pts.push(i + 1);
+                pts.push(i + 2);
+            }
+        }
+        pts.retain(|p| *p > 0 && *p < n);
+        pts.sort();
+        pts.dedup();
+        if pts.len() > 160 {
+            let step = pts.len() / 160 + 1;
+            pts = pts.into_iter().step_by(step).collect();
+        }
+        par_items(&run, "C09 scale cut pairs", &pts, |_, a, t| {
+            for b in &pts {
+                if b <= a {
+                    continue;
+                }
+                t.evals += 1;
+                t.validated += 1;
+                t.states += 1;
+                t.transitions += 3;
+                match run_partition(spec, &[*a, *b]) {
+                    Some(v) => t.violation(v),
+                    None => t.outcome("scale/cut-pair-ok"),
+                }
+            }
+        });
+    }
     run.finish();
 }
